@@ -540,3 +540,24 @@ Example C09_trailing_loop_example :
   (* without the data edge k.2 -> k.1 the pair (1, 1) would fail: the empty set of tainted names plus in0, k.2 *)
   self_closed_b w_cfg_loop [w_in0; w_k 2] = false.
 Proof. vm_compute. repeat split; reflexivity. Qed.
+
+(* ---------------------------------------------------------------------------
+   Fourth audit: "this condition is constant" is not taken from the implementation on trust.
+   The taint pass, cdep, region_covers and ctl_closed skip a branch whose condition node carries a value claim
+   ([expr_val c = Some k]) - in the dump that is the implementation's own verdict.  On a graph accepted by the
+   verified validator of value claims (Model.Justify.vjust_cfg; evaluated on every dumped graph, field `vj` of the
+   model driver ctlregion) such a condition takes the claimed value in every reachable state of the value semantics
+   (Spec.ValueSem), so the branch decision cannot carry information.  (Instance of C06_validated_graph_claims_true.)
+   --------------------------------------------------------------------------- *)
+Require Proofs.CondConstProofs.
+Theorem C09_skipped_conditions_are_constant :
+  forall (p : Z) (c : cfg) (blk : block) (m : meta) (e : expr) (t : N) (f : option N) (k : vred)
+         (s0 s : Spec.ValueSem.store) (v : Z),
+    Znumtheory.prime p -> (2 < p)%Z -> (Z.log2 p < 2 ^ 64)%Z ->
+    Model.Justify.vjust_cfg p c = true ->
+    In blk (c_blocks c) -> In (SIf m e t f) (b_stmts blk) -> expr_val e = Some k ->
+    Spec.ValueSem.init_ok (Model.Justify.all_stmts (c_blocks c)) p s0 ->
+    Spec.ValueSem.reachable (Model.Justify.all_stmts (c_blocks c)) p s0 s ->
+    Spec.ValueSem.evalR p s e v -> Spec.ValueSem.claim_ok k v.
+Proof. exact Proofs.CondConstProofs.skipped_conditions_are_constant. Qed.
+Print Assumptions C09_skipped_conditions_are_constant.
